@@ -304,7 +304,15 @@ op("rename_absent_key", "df", lambda x: x.rename(columns={"zz": "a", "b": "B"}),
 # elementwise operations whose operands have DIFFERENT rows (aligned on labels: result as long as the union)
 op("add_filtered", "df", lambda x: x["b"][x["b"] > 2] + x["a"], lsens=True, tier=2)
 op("add_filtered_frames", "df", lambda x: x[x["a"] > 2][["a", "u"]] + x[x["u"] > 4][["a", "u"]], lsens=True, tier=2)
-op("twice_partitions", "any", lambda x: _concat([x.partitions[[0]], x.partitions[[1]]]), pd=None, tags=("twice", "daskonly", "psens"), tier=2)
+op("twice_partitions", "any", lambda x: _concat([x.partitions[[0]], x.partitions[[1]]]), pd=None, tags=("twice", "daskonly", "psens"), tier=1)
+# a filter above a join whose FIRST condition reads columns of both inputs (cannot be attributed to one side), and-ed to one-sided ones
+op("merge_T2_filt_cross", "df", lambda x: (lambda m: m[(m["u"] > m["e"]) & (m["b_x"] > 0)])(x.merge(_T2(x), on="a")), order="lose", labels="lose", tier=2, tags=("dup",))
+op("merge_T2_filt_cross_stacked", "df", lambda x: (lambda m: (lambda f: f[f["b_x"] > 0])(m[m["u"] > m["e"]]))(x.merge(_T2(x), on="a")), order="lose", labels="lose", tier=2, tags=("dup",))
+# integer parameters that equal the boolean default of the same parameter (split_out=1 vs True)
+op("dropdup_so1", "any", lambda x: x.drop_duplicates(split_out=1) if not isinstance(x, (pd.DataFrame, pd.Series)) else x.drop_duplicates(), order="lose", osens=True, tier=2)
+op("unique_so1", "s", lambda x: x.unique(split_out=1) if not isinstance(x, pd.Series) else pd.Series(x.unique(), name=x.name), order="lose", labels="lose", tier=2)
+# a row slice that covers whole partitions in the middle, with a column indexer that is a permutation of all columns
+op("loc_rows_cols_perm", "df", lambda x: x[["a", "b", "u"]].loc[1:10, ["u", "a", "b"]], lsens=True, osens=True, tier=2)
 
 
 # --------------------------------------------------------------------------
@@ -605,8 +613,11 @@ def typing_of(opnames):
     return t
 
 
-def build(src, opnames, pandas=False):
-    """Apply the op list to a source collection (or pandas frame)."""
+def build(src, opnames, pandas=False, method="tasks"):
+    """Apply the op list to a source collection (or pandas frame).
+
+    method: the configured shuffle method while the program is BUILT.  Some operations resolve the method when they are built
+    (``shuffle`` stores it as an operand), so a check that wants the disk plans has to build under that configuration too."""
     x = src
     if pandas:
         for n in opnames:
@@ -617,8 +628,8 @@ def build(src, opnames, pandas=False):
     # compute different rows on every execution
     import dask
 
-    with dask.config.set({"dataframe.shuffle.method": "tasks"}):
-        for n in opnames:
+    for n in opnames:
+        with dask.config.set({"dataframe.shuffle.method": "tasks" if "nested" in OPS[n].tags else method}):
             x = OPS[n].apply(x, pandas=False)
     return x
 
